@@ -98,7 +98,7 @@ Proof.
     as (r & w' & e' & Hst & Hcl' & Hpost).
   change (with_fault {| ss_wal := w; ss_env := e |} f fx) with {| ss_wal := w; ss_env := {| e_acts := e_acts e; e_disk := e_disk e; e_fault := f; e_fx := fx; e_m := e_m e |} |} in *.
   rewrite Hst in HI' |- *. cbn [ss_wal]. split; [exact Hcl'|].
-  destruct Hpost as [(-> & nom' & Hacc & _)|(Hr & _)].
+  destruct Hpost as [(-> & nom' & Hacc & _)|[(Hr & _)|(_ & k & v & n & nom' & K & _)]]; [| |discriminate K].
   - rewrite Hacc in HI'. eexists. split; [exact HI'|]. split; [reflexivity|]. left. split; [reflexivity|exact Hacc].
   - destruct r; try congruence; (eexists; split; [exact HI'|]; split; [reflexivity|]; right; split; [discriminate|reflexivity]).
 Qed.
@@ -205,9 +205,9 @@ Lemma failed_create_effect si e e' : seg_create si e = (None, e') ->
 Proof.
   unfold seg_create. destruct (si_base si =? 0); [intros E; inversion E; auto|].
   destruct (lookup _ _).
-  - destruct (io_cases (AFail (ACreate (name_of si) (si_size_limit si))) e eq_refl) as [(x & Ex & Dx & _)|(x & Ex & Dx & _)];
+  - destruct (io_cases (AFail (ACreate (name_of si) (si_size_limit si))) e eq_refl eq_refl) as [(x & Ex & Dx & _)|(x & Ex & Dx & _)];
       rewrite Ex; intros E; inversion E; subst; left; rewrite Dx; reflexivity.
-  - destruct (io_cases (ACreate (name_of si) (si_size_limit si)) e eq_refl) as [(x & Ex & Dx & _)|(x & Ex & Dx & _)];
+  - destruct (io_cases (ACreate (name_of si) (si_size_limit si)) e eq_refl eq_refl) as [(x & Ex & Dx & _)|(x & Ex & Dx & _)];
       rewrite Ex; intros E; inversion E; subst.
     destruct (fx_leave (e_fx e)); [right; unfold leave_entry; cbn [e_disk]; rewrite Dx; reflexivity|left; exact Dx].
 Qed.
